@@ -1,7 +1,7 @@
 (* C05 lemmas: MeanStat / SumStat merge are commutative monoids on their documented
    domains; evaluate_batch / evaluate_model are folds of merge over the real rows. *)
 From Coq Require Import ZArith QArith Qminmax Qabs List Permutation Bool Lia Lqa Setoid Morphisms.
-From FV Require Import Common.ListX Common.Batch Common.CMonoid Common.NanQ gen.Gen_util gen.Gen_metrics
+From FV Require Import Common.ListX Common.Batch Common.CMonoid Common.NanQ gen.Gen_util gen.Gen_metrics gen.Gen_models
   Model.C05_Model.
 Import ListNotations.
 Local Open Scope Q_scope.
@@ -33,8 +33,18 @@ Proof. induction l as [|b l IH]; intros a; cbn; [reflexivity|apply IH]. Qed.
 
 Lemma evaluate_model_stat_mfold K batches :
   evaluate_model_stat alg K batches =
-  mfold (vmerge alg) (vzero alg K) (map (fun b => evaluate_batch alg K (Some (fst b)) (snd b)) batches).
-Proof. unfold evaluate_model_stat, mfold. apply fold_left_map_merge. Qed.
+  mfold (vmerge alg) (vzero alg K) (map (fun b => evaluate_batch alg K (Some (mask_of b)) (snd b)) batches).
+Proof.
+  unfold evaluate_model_stat, Gen_models.evaluate_model_stat, mfold.
+  assert (G : forall a, fold_left (fun stat batch => evaluate_model_step (vzero alg K) (vmerge alg) (vreduce alg K) batch stat) batches a =
+                        fold_left (vmerge alg) (map (fun b => evaluate_batch alg K (Some (mask_of b)) (snd b)) batches) a).
+  { induction batches as [|b batches IH]; intros a; cbn [fold_left map]; [reflexivity|]. exact (IH _). }
+  exact (G _).
+Qed.
+
+(* the ModelEvaluator client functions compute the same thing as evaluate_model *)
+Lemma evaluator_is_evaluate_model K batches : evaluator_client alg K batches = evaluate_model alg K batches.
+Proof. reflexivity. Qed.
 
 Lemma foldr_vmerge_length K rows : Forall (vD K) rows -> length (fold_right (vmerge alg) (vzero alg K) rows) = K.
 Proof.
@@ -83,7 +93,8 @@ Qed.
 Lemma evaluate_batch_masked K m rows : Forall (vD K) (strip rows m) ->
   Forall2 eqv (evaluate_batch alg K (Some m) rows) (mfold (vmerge alg) (vzero alg K) (strip rows m)).
 Proof.
-  intros H. unfold evaluate_batch.
+  intros H. unfold evaluate_batch, Gen_metrics.evaluate_batch, apply_mask.
+  change (map2 (fun (m0 : bool) x => if m0 then x else vzero alg K) m rows) with (mask_with (vzero alg K) m rows).
   pose proof (mask_with_D (VM K) m rows H) as HD.
   pose proof (Forall2_eqv_equiv M) as E2.
   etransitivity; [apply vreduce_is_fold; exact HD|]. apply (mfold_masked (VM K)). exact H.
@@ -91,7 +102,7 @@ Qed.
 
 Lemma evaluate_batch_unmasked K rows : Forall (vD K) rows ->
   Forall2 eqv (evaluate_batch alg K None rows) (mfold (vmerge alg) (vzero alg K) rows).
-Proof. intros H. unfold evaluate_batch. apply vreduce_is_fold. exact H. Qed.
+Proof. intros H. unfold evaluate_batch, Gen_metrics.evaluate_batch. apply vreduce_is_fold. exact H. Qed.
 
 Lemma Forall_concat' {B} (P : B -> Prop) ls : Forall P (concat ls) <-> Forall (Forall P) ls.
 Proof.
@@ -107,14 +118,14 @@ Proof.
   pose proof (Forall2_eqv_equiv M) as E2.
   rewrite evaluate_model_stat_mfold. unfold merge_examples.
   assert (F2 : Forall2 (Forall2 eqv)
-                 (map (fun b => evaluate_batch alg K (Some (fst b)) (snd b)) batches)
-                 (map (mfold (vmerge alg) (vzero alg K)) (map (fun b => strip (snd b) (fst b)) batches))).
+                 (map (fun b => evaluate_batch alg K (Some (mask_of b)) (snd b)) batches)
+                 (map (mfold (vmerge alg) (vzero alg K)) (map (fun b => strip (snd b) (mask_of b)) batches))).
   { induction H as [|b batches Hb _ IH]; cbn; constructor; [apply evaluate_batch_masked; exact Hb|exact IH]. }
-  assert (DR : Forall (vD K) (map (mfold (vmerge alg) (vzero alg K)) (map (fun b => strip (snd b) (fst b)) batches))).
+  assert (DR : Forall (vD K) (map (mfold (vmerge alg) (vzero alg K)) (map (fun b => strip (snd b) (mask_of b)) batches))).
   { rewrite map_map. apply Forall_map. eapply Forall_impl; [|exact H]. intros b Hb. apply (mfold_D (VM K)). exact Hb. }
   assert (F2' : Forall2 (Forall2 eqv)
-                 (map (mfold (vmerge alg) (vzero alg K)) (map (fun b => strip (snd b) (fst b)) batches))
-                 (map (fun b => evaluate_batch alg K (Some (fst b)) (snd b)) batches)).
+                 (map (mfold (vmerge alg) (vzero alg K)) (map (fun b => strip (snd b) (mask_of b)) batches))
+                 (map (fun b => evaluate_batch alg K (Some (mask_of b)) (snd b)) batches)).
   { clear - F2 E2. induction F2; constructor; [symmetry; assumption|assumption]. }
   etransitivity; [symmetry; apply (mfold_Forall2 (VM K) _ _ F2' DR)|].
   apply (mfold_concat (VM K)). rewrite Forall_map. exact H.
@@ -165,17 +176,17 @@ Proof.
   etransitivity; [exact R1|symmetry; exact R2].
 Qed.
 
-Lemma real_examples_all_masked (batches : list (list bool * list (list A))) :
-  Forall (fun b => Forall (fun m => m = false) (fst b)) batches -> real_examples batches = [].
+Lemma real_examples_all_masked (batches : list (option (list bool) * list (list A))) :
+  Forall (fun b => Forall (fun m => m = false) (mask_of b)) batches -> real_examples batches = [].
 Proof.
-  unfold real_examples. induction 1 as [|[m rows] batches Hm _ IH]; cbn; [reflexivity|].
-  rewrite IH, app_nil_r. cbn in Hm. clear IH. revert rows; induction Hm as [|b m Hb _ IHm]; intros [|r rows]; cbn; try reflexivity.
-  subst b. apply IHm.
+  unfold real_examples. induction 1 as [|b batches Hm _ IH]; cbn [map concat]; [reflexivity|].
+  rewrite IH, app_nil_r. clear IH. generalize (snd b). induction Hm as [|x m Hx _ IHm]; intros [|r rows]; cbn; try reflexivity.
+  subst x. apply IHm.
 Qed.
 
 (* empty or fully masked input: the zero statistic, whatever the masked rows contain *)
 Lemma all_masked_is_zero K batches :
-  Forall (fun b => Forall (fun m => m = false) (fst b)) batches ->
+  Forall (fun b => Forall (fun m => m = false) (mask_of b)) batches ->
   Forall2 eqv (evaluate_model_stat alg K batches) (vzero alg K) /\
   Forall2 NanQ.eq (evaluate_model alg K batches) (repeat (sa_result alg zero) K).
 Proof.
@@ -183,6 +194,10 @@ Proof.
   destruct (batching_invariance K batches [] ltac:(rewrite E; constructor) ltac:(constructor)) as [S R].
   split; [exact S|]. unfold merge_examples, mfold in R. cbn in R. unfold vresult, vzero in R. rewrite map_repeat' in R. exact R.
 Qed.
+
+(* a batch without a mask key counts every row *)
+Lemma mask_of_None (rows : list (list A)) : strip rows (mask_of (None, rows)) = rows.
+Proof. unfold mask_of. cbn. apply strip_all_true. Qed.
 End Generic.
 
 (* ---------------- safe_div ---------------- *)
@@ -484,11 +499,11 @@ Proof.
 Qed.
 
 Lemma empty_is_zero_not_nan :
-  (forall K (batches : list (list bool * list (list (NanQ.t * NanQ.t)))),
-     Forall (fun b => Forall (fun m => m = false) (fst b)) batches ->
+  (forall K (batches : list (option (list bool) * list (list (NanQ.t * NanQ.t)))),
+     Forall (fun b => Forall (fun m => m = false) (mask_of b)) batches ->
      Forall2 NanQ.eq (evaluate_model mean_alg K batches) (repeat (Some 0) K)) /\
-  (forall K (batches : list (list bool * list (list NanQ.t))),
-     Forall (fun b => Forall (fun m => m = false) (fst b)) batches ->
+  (forall K (batches : list (option (list bool) * list (list NanQ.t))),
+     Forall (fun b => Forall (fun m => m = false) (mask_of b)) batches ->
      Forall2 NanQ.eq (evaluate_model sum_alg K batches) (repeat (Some 0) K)).
 Proof.
   split; intros K batches H.
@@ -513,3 +528,25 @@ Proof.
   - apply (evaluate_batch_masked sum_alg NanQ.eq NanQ.finite sum_monoid sum_reduce_spec); assumption.
   - apply (evaluate_batch_unmasked sum_alg NanQ.eq NanQ.finite sum_monoid sum_reduce_spec); assumption.
 Qed.
+
+(* ModelEvaluator: per client, init / step / final compute evaluate_model of that client's batches *)
+Lemma evaluator_client_is_evaluate_model :
+  (forall K batches, evaluator_client mean_alg K batches = evaluate_model mean_alg K batches) /\
+  (forall K batches, evaluator_client sum_alg K batches = evaluate_model sum_alg K batches).
+Proof. split; reflexivity. Qed.
+
+(* no mask key = every row is real *)
+Lemma no_mask_key_all_real :
+  (forall (rows : list (list (NanQ.t * NanQ.t))), real_examples [(None, rows)] = rows) /\
+  (forall (rows : list (list NanQ.t)), real_examples [(None, rows)] = rows).
+Proof. split; intros rows; unfold real_examples; cbn [map concat]; rewrite app_nil_r; apply mask_of_None. Qed.
+
+(* zero() of every built-in metric class is the zero of its Stat type *)
+Lemma builtin_zeros :
+  zero_Accuracy = mean_metric_zero /\ zero_TopKAccuracy = mean_metric_zero /\
+  zero_SequenceTokenCrossEntropyLoss = mean_metric_zero /\ zero_SequenceCrossEntropyLoss = mean_metric_zero /\
+  zero_SequenceTokenAccuracy = mean_metric_zero /\ zero_SequenceTokenTopKAccuracy = mean_metric_zero /\
+  zero_SequenceTruncationRate = mean_metric_zero /\ zero_SequenceTokenOOVRate = mean_metric_zero /\
+  zero_SequenceLength = mean_metric_zero /\
+  zero_SequenceCount = sum_metric_zero /\ zero_ConfusionMatrix_entry = sum_metric_zero.
+Proof. repeat split; reflexivity. Qed.
